@@ -6,7 +6,8 @@ import json, os, glob, shutil, subprocess, sys, tempfile, time
 ENV = dict(os.environ, GOFLAGS='-mod=mod', GOPROXY='off', GOSUMDB='off', GOTOOLCHAIN='local')
 def run(cmd, cwd=None, timeout=1800):
     return subprocess.run(cmd, cwd=cwd, env=ENV, capture_output=True, text=True, timeout=timeout, shell=isinstance(cmd, str))
-only = sys.argv[1:]
+nobase = '--no-baseline' in sys.argv
+only = [a for a in sys.argv[1:] if not a.startswith('--')]
 bad = 0
 for d in sorted(glob.glob('/verif/seeded/*/')):
     sid = os.path.basename(d.rstrip('/'))
@@ -36,8 +37,9 @@ for d in sorted(glob.glob('/verif/seeded/*/')):
         print('refusing: /repo dirty'); sys.exit(2)
     run(['git', '-C', '/repo', 'apply', d + 'patch.diff'])
     try:
-        bl = run(['/verif/tools/baseline.sh'])
-        m['confirmed']['baseline_passes_with_change'] = bl.returncode == 0
+        if not nobase:
+            bl = run(['/verif/tools/baseline.sh'])
+            m['confirmed']['baseline_passes_with_change'] = bl.returncode == 0
         for pr in list(m['checks'].keys()):
             r = run(['/verif/check', pr, '--tier', 'quick'], cwd='/verif', timeout=3600)
             lines = [l for l in r.stdout.splitlines() if l.startswith('VIOLATION') or l.startswith('  ')][:6]
